@@ -291,7 +291,17 @@ mod compat {
             (),
             &lsp_types_old::Position::new(pos.line, pos.character),
         )
-        .unwrap()
+        .unwrap_or_else(|_| {
+            // a position behind the end of a line (or of the document) is clamped
+            use codespan_reporting::files::Files;
+            match file.line_range((), pos.line as usize) {
+                Ok(range) => {
+                    let line = &file.source()[range.clone()];
+                    range.start + line.trim_end_matches(['\r', '\n']).len()
+                }
+                Err(_) => file.source().len(),
+            }
+        })
     }
 
     pub fn span_to_range(file: &SimpleFile<&str, &str>, span: &Span) -> lsp_types::Range {
